@@ -22,7 +22,7 @@ def run(init_cls, init_sty, hist, H, marked=0):
     t = H.Tag("div", kw)
     # a second tag given the very same value objects (one HTML() constant used for several elements): nothing is ever
     # done to it, so nothing about it may change
-    twin = H.Tag("span", dict(kw))
+    twin = H.Tag("span", dict(kw)) if marked & 8 == 0 else H.Tag("span", t.attrs)
     twin0 = (val(twin, "class"), val(twin, "style"))
     init = {"cls": val(t, "class"), "sty": val(t, "style")}
     out = []
@@ -48,6 +48,8 @@ def run(init_cls, init_sty, hist, H, marked=0):
             rec["exc"] = "ValueError"
         except Exception as ex:  # noqa
             rec["exc"] = type(ex).__name__
+        if (marked >> 4) & 1 and step % 2:
+            t.get_html_string()          # a rendering in between changes nothing about the stored values
         rec["cls"] = val(t, "class")
         rec["sty"] = val(t, "style")
         rec["twinSame"] = (val(twin, "class"), val(twin, "style")) == twin0
@@ -79,6 +81,8 @@ class C16(Prop):
                 {"module": "MC_ClassStyle", "cfg": "ClassStyle_sim.cfg", "simulate": "num=1000", "depth": 10, "export": False, "timeout": 900}]
 
     def nontrivial(self, rec):
+        if rec.get("k") == "obs":
+            return True
         if rec.get("k") == "css":
             return any(any(c in range(65, 91) or c == 95 for c in a["k"]) for a in rec["kw"])
         toks = uncps(rec["init"]["cls"]["t"]).split()
@@ -90,7 +94,7 @@ class C16(Prop):
 
     def gens_random(self, tier, rnd):
         gens = []
-        toks = ["a", "ab", "a-b", "b", "foo", "foo-x", "foobar", "x_1", "é", "Z9", "b-"]
+        toks = ["a", "ab", "a-b", "b", "foo", "foo-x", "foobar", "x_1", "é", "Z9", "b-", "[&>p]:mt-0", "a&b", "x<y", "q\"r", "it's"]
         decls = ["x;", "color: red;", "z", "", "a:b;c:d;", " lead;", "w: 1", "p; ", "q;\n", "r;\t", ";", " "]
         for _ in range(500 if tier == "quick" else 10000):
             n = rnd.randint(0, 5)
@@ -102,12 +106,21 @@ class C16(Prop):
                 op = rnd.choice(["add_class", "add_class", "remove_class", "remove_class", "has_class", "add_style"])
                 tok = rnd.choice(decls) if op == "add_style" else rnd.choice(toks)
                 hist.append({"op": op, "tok": cps(tok), "pre": rnd.random() < 0.5})
+            marked_ = rnd.choice([0, 0, 1, 2, 3, 5, 7]) + rnd.choice([0, 8]) + rnd.choice([0, 16])
+            if marked_ & 1 and any(set(uncps(h_["tok"])) & set("&<>\"'") for h_ in hist):
+                # (a plain token with such a character is STORED escaped inside an HTML() class value - C03 -, so the stored
+                #  text is not the token text; that combination is exercised by the `marked_special` scenario instead)
+                marked_ &= ~5
             sty = rnd.choice([None, None, "q:1;", "k", "", " ", "q:1; "])
             gens.append({"kind": "hist", "cls": {"p": init is not None, "t": cps(init or "")},
                          "sty": {"p": sty is not None, "t": cps(sty or "")}, "hist": hist,
                          # (HTML() tokens are only added to HTML() values: merging a plain value with an HTML() one stores
                          #  the plain part escaped - C03 - and a line break between tokens would no longer be whitespace)
-                         "marked": rnd.choice([0, 0, 1, 2, 3, 5, 7])})
+                         "marked": marked_})
+        for tok in ["a&b", "[&>p]:mt-0", "x<y", "q\"r", "it's", "plain"]:
+            for first in ("x", "x y", "p&amp;q"):
+                for pre in (False, True):
+                    gens.append({"kind": "marked_special", "tok": tok, "first": first, "pre": pre})
         keys = ["a", "a_b", "aB", "AB", "a_B", "aBC", "ABc", "font_size", "backgroundColor", "x", "WebkitBoxFlex", "a__b", "_a", "a_"]
         # (equal numbers of different types next to each other: 1 / 1.0 / True, 0 / 0.0 / -0.0 / False)
         vals = [None, "v", 1, 2.5, "12px", "a b", 0, 1.0, True, 0.0, -0.0, False, "1", 1, 1.0, True]
@@ -126,6 +139,17 @@ class C16(Prop):
         if g["kind"] == "hist":
             init, hist = run(g["cls"], g["sty"], g["hist"], H, g.get("marked", 0))
             return {"k": "hist", "init": init, "hist": hist, "gen": g}
+        if g["kind"] == "marked_special":
+            # the token laws through the helpers' own eyes, for a plain token merged into an HTML() class value
+            t = H.Tag("div", {"class": H.HTML(g["first"])})
+            others = g["first"].split()
+            r1 = t.add_class(g["tok"], prepend=g["pre"])
+            t.get_html_string()
+            ok = r1 is t and t.has_class(g["tok"]) and all(t.has_class(o) for o in others) and not t.has_class("nope")
+            ok = ok and str(t.attrs["class"]).split()[0 if g["pre"] else -1] in (g["tok"], H.html_escape(g["tok"], attr=True))
+            r2 = t.remove_class(g["tok"])
+            ok = ok and r2 is t and not t.has_class(g["tok"]) and str(t.attrs.get("class", "")).split() == others
+            return {"k": "obs", "name": "AddClassMakesTokenPresentWithoutDisturbingOthers", "holds": bool(ok), "gen": g}
         kw = {k: v for k, v in g["kw"]}
         out = H.css(**kw)
         accepted = True
